@@ -2,6 +2,7 @@ package rules
 
 import (
 	"fmt"
+	"go/constant"
 	"go/token"
 	"go/types"
 	"regexp"
@@ -62,6 +63,8 @@ func checkC14(p *core.Program, r *core.Report) {
 	r.Rule("R3", "operator tables: every Operator constant is a COMPARATOR literal of the grammar; aliases map grammar fragments to operators; Condition.String prints the condition's own operator; BoolCombination.String always parenthesises and joins with its own operator")
 	r.Rule("R4", "property prefixes: the writer's `fields.` / `urns.` prefixes pair with the reader's prefix arms and property types")
 	r.Rule("R5", "structure is kept by the parser's own rewriting: every type switch over QueryNode in contactql covers both node types, and Simplify flattens only children with the same operator and keeps their order (shared with C15/R5)")
+	r.Rule("R7", "what is printed is accepted again: Condition.String writes every URN condition in the prefixed form (`urns.tel = …`), the parser accepts URN conditions in three spellings, and each spelling has its own arm in the condition visitor — the arms that reject a condition under URN redaction exempt the same conditions (the set / not-set checks, value == \"\"): a stricter arm for one spelling makes the printed form of an accepted query unparseable")
+	c14R7(p, r)
 	r.Rule("R6", "the lexer reads the query text as given: what ParseQuery hands to antlr.NewInputStream is its text parameter after strings.TrimSpace, or the whole-text phone number rewrite `tel = <number>`; no other call may transform the text (a rewrite before lexing also rewrites the inside of quoted, escaped literals)")
 	r.Assumption("strconv.Quote/Unquote are inverse; structural identity of re-parsed queries for all inputs is not decided")
 	c15R5(p, r, p.Func("contactql", "evaluateNode"))
@@ -504,4 +507,82 @@ func c14R6(p *core.Program, r *core.Report) {
 			"the query text is transformed by "+strings.Join(bad, ", ")+" before it reaches the lexer: the transformation also applies inside quoted literals, so a value that was escaped into one literal no longer parses as that literal")
 	}
 	r.Require("lexer_input_sites", n, 1)
+}
+
+// ---------------------------------------------------------------------------------------------- R7
+
+func c14R7(p *core.Program, r *core.Report) {
+	code, ok := packageStringConst(p, "contactql", "ErrRedactedURNs")
+	if !ok {
+		r.Errorf("contactql.ErrRedactedURNs not found")
+		return
+	}
+	type site struct {
+		cs    core.CallSite
+		tests string
+	}
+	var sites []site
+	for _, cs := range p.CallsToName("contactql.NewQueryError") {
+		if p.IsTestFile(cs.Pos()) || len(cs.Common().Args) == 0 {
+			continue
+		}
+		if c, ok := core.ConstString(cs.Common().Args[0]); !ok || c != code {
+			continue
+		}
+		// the tests against the empty string that decide whether this rejection happens
+		var ts []string
+		for _, ce := range core.MayConds(cs.Instr.Block()) {
+			bo, ok := ce.Cond.(*ssa.BinOp)
+			if !ok || (bo.Op != token.EQL && bo.Op != token.NEQ) {
+				continue
+			}
+			var other ssa.Value
+			if c, isC := core.ConstString(bo.Y); isC && c == "" {
+				other = bo.X
+			} else if c, isC := core.ConstString(bo.X); isC && c == "" {
+				other = bo.Y
+			}
+			if other == nil {
+				continue
+			}
+			nonEmpty := (bo.Op == token.NEQ) == ce.Taken
+			ts = append(ts, fmt.Sprintf("%s non-empty=%v", canonShort(other), nonEmpty))
+		}
+		sort.Strings(ts)
+		sites = append(sites, site{cs, strings.Join(uniq(ts), "; ")})
+	}
+	r.Count("redacted_urn_rejections", len(sites))
+	if len(sites) < 2 {
+		return // a single rejection site (one helper serving every spelling) agrees with itself
+	}
+	// the majority form is the reference
+	count := map[string]int{}
+	for _, s := range sites {
+		count[s.tests]++
+	}
+	ref := ""
+	for _, k := range core.SortedKeys(count) {
+		if ref == "" || count[k] > count[ref] {
+			ref = k
+		}
+	}
+	per := map[string]int{}
+	for _, s := range sites {
+		fn := core.FuncName(s.cs.Caller)
+		per[fn]++
+		r.Check(s.tests == ref, "R7", fmt.Sprintf("%s/redacted-urn-rejection#%d/same-exemptions", fn, per[fn]), p.Pos(s.cs.Pos()), "decided by: "+ref,
+			fmt.Sprintf("this arm rejects URN conditions under redaction depending on [%s] while its sibling arms depend on [%s]: one spelling of a condition is rejected where the others are accepted, so the printed form of an accepted query (always `urns.<scheme>`) may not parse", s.tests, ref))
+	}
+}
+
+func packageStringConst(p *core.Program, rel, name string) (string, bool) {
+	pk := p.Pkg(rel)
+	if pk == nil {
+		return "", false
+	}
+	c, ok := pk.Types.Scope().Lookup(name).(*types.Const)
+	if !ok || c.Val().Kind() != constant.String {
+		return "", false
+	}
+	return constant.StringVal(c.Val()), true
 }
